@@ -329,7 +329,7 @@ class NthSpot(Underlying):
 
     def imply_from_payoff_underlying(self, payoff_underlying_type) -> Callable:
         if payoff_underlying_type is Spot:
-            return lambda times, path, payoff_underlying: payoff_underlying[
+            return lambda times, path, jump_path, payoff_underlying: payoff_underlying[
                 self.index - 1
             ]
 
